@@ -10,23 +10,35 @@ import Mathlib.Tactic.NormNum
 # C06 — every optical element is a linear (fibre injection: conjugate-linear), repeatable map that
 leaves its input intact
 
-Two models, tied to the code by harness/props/c06.py:
+Three models, tied to the code by harness/props/c06.py:
 
 * `OpIR.Term` / `denote` — what an element computes.  `denote_linear`, `conj_linear`: **every** term
   with a definite parity is linear / conjugate-linear, over any commutative ring with a ring
   involution `cj` (instantiated at `ℂ` by `isConj_complex`); vectors are lists of any length.
-  The family schemas of `Model/Elements.lean` have the parity the property asks for, for all
-  parameter values (`*_parity`), hence are (conjugate-)linear (`family_linear`, `family_conj_linear`).
+  The terms are built in Lean by `Elements.familyTerm` from the parameters the harness reads off the
+  element (driver op `C06 denote-family`); `family_parity`: every term of the table has the parity
+  its family declares, hence is (conjugate-)linear (`family_semilinear`), also as executed at the
+  driver's dyadic scalars (`family_semilinear_executed`) and applied component by component to a
+  polarised field (`denoteBlocks`, `family_semilinear_blocks`, op `C06 denote-family-blocks`).
 * `Effects.Prog` / `call` — what a call does to the objects it is given.  `safe_sound`: a program
   accepted by the static checker returns with the input wavefront's field *and* attributes exactly
   as they were, for every input value and every meaning of the array operations; `repeatable`:
-  calling again (on what the first call left behind) gives the same result. Every shipped effect
-  program is accepted (`shipped_programs_safe`); the pinned tree's
+  calling again (on what the first call left behind) gives the same result.  Grid and Stokes vector
+  are heap objects of their own (`viewProg`, `safeAttr`, `safe_sound_attr`): several wavefronts may
+  point to one grid, and an in-place update through any of them is rejected
+  (`scaleSharedGridOld_*`, `copy_shares_grid_unsafe`, `stokesInplaceOld_*`).  Every shipped effect
+  program is accepted on all three heaps (`shipped_programs_safeAll`); the pinned tree's
   `VectorVortexCoronagraph.backward` is rejected and provably leaves `wavelength = 1`
-  (`vvcBwdScalarOld_clobbers_wavelength`).
+  (`vvcBwdScalarOld_clobbers_wavelength`).  The driver op `C06 effects` runs `call` and the
+  checkers; the harness compares identity / sharing of the result, the ordered trace of what is done
+  to the input object and the number of wavefront objects created with the running code.
+* `Effects.IProg` / `callI` / `runHistory` — what a call keeps inside the element
+  (`history_independent`); driver op `C06 history` replays the harness's call / parameter-change
+  histories and its hit / miss predictions are compared with observed recomputations.
 
-Not modelled: eviction from the instance cache and hash collisions (C05), the Python
-object model beyond the instruction set of `Effects.Instr`, rounding.
+Not modelled: hash collisions of the instance cache (C05), the Python object model beyond the
+instruction set of `Effects.Instr`, rounding.  The programs with a loop over scales / layers are
+written for one round of the loop; `chain` stands for compositions of arbitrary parts.
 -/
 set_option linter.unusedSimpArgs false
 set_option linter.unusedVariables false
